@@ -8,7 +8,9 @@ import (
 type Siblings struct {
 	ByName       map[string]*Sibling
 	RestoreIdent *Case
-	Ctx          map[string]*Ctx // by package path
+	// RestoreIdentErr: restoreIdent lost its overall shape
+	RestoreIdentErr error
+	Ctx             map[string]*Ctx // by package path
 }
 
 // CtxFor builds an extractor context for a package.
@@ -46,13 +48,16 @@ func ExtractAll(prog *load.Program) (*Siblings, error) {
 	} {
 		s, err := e.f()
 		if err != nil {
-			return nil, err
+			// only the rules that read this sibling are affected: they find an empty one and report
+			// the lost shape (R-SHAPE through RCover / SiblingOK)
+			s = &Sibling{Name: e.name, Cases: map[string]*Case{}, MultiCases: map[string][]string{}, Err: err}
 		}
 		out.ByName[e.name] = s
 	}
 	ri, err := ExtractRestoreIdent(dc)
 	if err != nil {
-		return nil, err
+		ri = &Case{Type: "Ident→SelectorExpr"}
+		out.RestoreIdentErr = err
 	}
 	out.RestoreIdent = ri
 	return out, nil
